@@ -494,6 +494,38 @@ impl Session {
             };
             ((f(&ro), ro.3), (f(&mu), mu.3))
         };
+        if !attr {
+            // serialisation writes every entry of the namespace view, also when the element is the top
+            // node (C11; seed C11l: an own `xmlns=""` dropped from the start tag of a top element)
+            let decls: Vec<(String, String, bool)> = {
+                let x = &self.xot;
+                x.namespaces(a).iter().map(|(p, n)| (x.prefix_str(p).to_string(), x.namespace_str(*n).to_string(), *n == x.xml_namespace())).collect()
+            };
+            if let Some(Ok(text)) = guarded(|| self.xot.to_string(a)) {
+                // the start tag ends at the first `>` outside a quoted attribute value
+                let mut in_q = false;
+                let mut end = text.len();
+                for (i, c) in text.char_indices() {
+                    if c == '"' {
+                        in_q = !in_q;
+                    } else if c == '>' && !in_q {
+                        end = i;
+                        break;
+                    }
+                }
+                let tag = &text[..end];
+                sink.stat("oracle.start-tag-has-view-entries");
+                for (p, u, is_xml) in decls {
+                    if is_xml || u.chars().any(|c| matches!(c, '&' | '<' | '>' | '"' | '\'' | '\t' | '\n' | '\r')) {
+                        continue;
+                    }
+                    let lit = if p.is_empty() { format!(" xmlns=\"{}\"", u) } else { format!(" xmlns:{}=\"{}\"", p, u) };
+                    if !tag.contains(&lit) {
+                        sink.fail("C11", "C11:declaration-of-the-view-missing-from-the-start-tag", &format!("to_string(element) = `{}`: the start tag lacks{} although the namespace view of the element holds that entry", text, lit), &self.history);
+                    }
+                }
+            }
+        }
         if ro.0 != mu.0 || !ro.1 || !mu.1 {
             sink.fail("C11", "C11:views-disagree", &format!("read-only view `{}` vs mutable view `{}` (self-consistent: {} {})", ro.0, mu.0, ro.1, mu.1), &self.history);
         }
